@@ -144,3 +144,58 @@ Proof.
   - intros H. apply filter_In in H. destruct H as [_ H]. simpl in H. now rewrite <- CF.
   - intros H. apply filter_In. split; auto. simpl. now rewrite CF.
 Qed.
+
+(** * unrooted inputs: the loop sees the trees themselves, and [tree_freq] is the frequency of the
+    specification ([freq_count] of Spec/ConsensusSpec.v, over [usplits]) *)
+From GT Require Import Proofs.CompareDomain Proofs.CompareDupfree Proofs.CompareWeighted.
+
+Lemma prep_unrooted t : unrooted t -> prep_input t = t.
+Proof.
+  intros (_ & D & _). unfold prep_input, rooted.
+  destruct (Nat.eqb_spec (degree t) 2); [lia|reflexivity].
+Qed.
+
+Lemma unrooted_member t0 t :
+  unrooted t0 -> unrooted t -> Permutation (leaves t) (leaves t0) -> member t0 t.
+Proof.
+  intros U0 U P. unfold member, ok_input. rewrite (prep_unrooted t U), (prep_unrooted t0 U0).
+  split; [apply U|]. split; [exact P|]. now apply unrooted_dupfree.
+Qed.
+
+Lemma psplits_usplits t : unrooted t -> psplits t = usplits t.
+Proof.
+  intros U. unfold psplits. rewrite (prep_unrooted t U). symmetry. apply usplits_dupfree. now apply unrooted_dupfree.
+Qed.
+
+Theorem tree_freq_spec s ts : Forall unrooted ts -> tree_freq s ts = freq_count ts (sside s).
+Proof.
+  intros F. unfold tree_freq, freq_count. f_equal. apply filter_ext_in'. intros t Ht.
+  rewrite Forall_forall in F. rewrite (psplits_usplits t (F t Ht)).
+  unfold tree_has, tree_split. rewrite find_split_has_key. destruct (find_split (sside s) (usplits t)); reflexivity.
+Qed.
+
+(** the selection on a collection of unrooted trees of the domain, in the vocabulary of the
+    specification: an entry is kept iff the number of trees containing its split passes the test *)
+Corollary selected_iff_freq_count t0 r c64 :
+  unrooted t0 -> Forall (fun t => unrooted t /\ Permutation (leaves t) (leaves t0)) r ->
+  exists a, cons_counts_assoc (t0 :: r) = Some (Ok (a, Z.of_nat (length (t0 :: r)))) /\
+    forall k c l, In (k, (c, l)) a ->
+      exists tj s, In tj (t0 :: r) /\ key_of tj k s /\
+                   c = Z.of_nat (freq_count (t0 :: r) (sside s)) /\
+                   (In (k, (c, l)) (filter (fun kv => keep_split c64 (Z.of_nat (length (t0 :: r))) (fst (snd kv))) a)
+                    <-> keep_split c64 (Z.of_nat (length (t0 :: r))) (Z.of_nat (freq_count (t0 :: r) (sside s))) = true).
+Proof.
+  intros U0 F.
+  assert (G0 : ok_input t0) by (unfold ok_input; rewrite (prep_unrooted t0 U0); apply U0).
+  assert (D0 : dupfree (prep_input t0)) by (rewrite (prep_unrooted t0 U0); now apply unrooted_dupfree).
+  assert (FM : Forall (member t0) r).
+  { eapply Forall_impl; [|exact F]. intros t [U P]. now apply unrooted_member. }
+  assert (FU : Forall unrooted (t0 :: r)).
+  { constructor; auto. eapply Forall_impl; [|exact F]. intros t [U _]. exact U. }
+  destruct (selected_iff_frequency t0 r c64 G0 D0 FM) as (a & E & H).
+  exists a. split; auto. intros k c l Hin.
+  destruct (H k c l Hin) as (tj & s & Hj & Hk & Ec & Hsel).
+  exists tj, s. rewrite Forall_forall in FU. rewrite (prep_unrooted tj (FU tj Hj)) in Hk.
+  rewrite <- (tree_freq_spec s (t0 :: r)) by (apply Forall_forall; exact FU).
+  auto.
+Qed.
